@@ -141,7 +141,9 @@ func TestC13Rollback(t *testing.T) {
 		if rv != nil {
 			rvDesc = fmt.Sprintf(" background tasks wait for the next batch at %v", sortedKeys(rv.Points))
 		}
-		desc := func() string { return fmt.Sprintf("config %s delay seed %d%s history %v", cfg, delaySeed, rvDesc, hist) }
+		desc := func() string {
+			return fmt.Sprintf("config %s delay seed %d%s history %v", cfg, delaySeed, rvDesc, hist)
+		}
 		if len(pts) == 0 {
 			t.Fatalf("no rollback point offered (%s)", desc())
 		}
